@@ -516,3 +516,44 @@ package constraint
 //@   nopanic
 //@   modifies c.innerTypeNames, c.innerTypeNames[*], c.typeNames, c.typeNames[*], c.elementASTNodes, c.elementASTNodes[*], c.hasUserTypes
 //@   ensures len(c.innerTypeNames) == old(len(c.innerTypeNames)) + 1
+
+// ---- C16: nested items of enum / allOf / required keys, in source order ----
+//@ func (Enum).ASTNode()
+//@   props C16 C18
+//@   nopanic
+//@   ensures len(c.ruleName) != 0 ==> result.TokenType == jschema.TokenTypeShortcut && result.Value == c.ruleName && len(result.Items) == 0
+//@   ensures len(c.ruleName) == 0 ==> result.TokenType == jschema.TokenTypeArray && len(result.Items) == len(c.items)
+//@   ensures len(c.ruleName) == 0 ==> (forall j :: 0 <= j && j < len(c.items) ==> result.Items[j].Value == c.items[j].value && result.Items[j].Comment == c.items[j].comment && result.Items[j].TokenType == jsonTokenStr(c.items[j].jsonType))
+//@   loop 0 invariant len(n.Items) == rangeindex + 1 && n.Items.$arr > old(alloc) && cap(n.Items) >= len(c.items) && n.TokenType == jschema.TokenTypeArray
+//@   loop 0 invariant forall j :: 0 <= j && j <= rangeindex ==> n.Items[j].Value == c.items[j].value && n.Items[j].Comment == c.items[j].comment && n.Items[j].TokenType == jsonTokenStr(c.items[j].jsonType)
+
+//@ func (AllOf).ASTNode()
+//@   props C16
+//@   nopanic
+//@   ensures len(c.schemaName) == 1 ==> result.TokenType == jschema.TokenTypeShortcut && result.Value == c.schemaName[0]
+//@   ensures len(c.schemaName) != 1 ==> result.TokenType == jschema.TokenTypeArray && len(result.Items) == len(c.schemaName) && (forall j :: 0 <= j && j < len(c.schemaName) ==> result.Items[j].Value == c.schemaName[j] && result.Items[j].TokenType == jschema.TokenTypeShortcut)
+//@   loop 0 invariant len(n.Items) == rangeindex + 1 && n.Items.$arr > old(alloc) && cap(n.Items) >= len(c.schemaName) && n.TokenType == jschema.TokenTypeArray
+//@   loop 0 invariant forall j :: 0 <= j && j <= rangeindex ==> n.Items[j].Value == c.schemaName[j] && n.Items[j].TokenType == jschema.TokenTypeShortcut
+
+//@ func (RequiredKeys).ASTNode()
+//@   props C16
+//@   nopanic
+//@   ensures result.TokenType == jschema.TokenTypeArray && len(result.Items) == len(c.keys) && (forall j :: 0 <= j && j < len(c.keys) ==> result.Items[j].Value == c.keys[j] && result.Items[j].TokenType == jschema.TokenTypeString)
+//@   loop 0 invariant len(n.Items) == rangeindex + 1 && n.Items.$arr > old(alloc) && cap(n.Items) >= len(c.keys) && n.TokenType == jschema.TokenTypeArray
+//@   loop 0 invariant forall j :: 0 <= j && j <= rangeindex ==> n.Items[j].Value == c.keys[j] && n.Items[j].TokenType == jschema.TokenTypeString
+
+//@ func (TypesList).ASTNode()
+//@   props C16
+//@   nopanic
+//@   ensures result.TokenType == jschema.TokenTypeArray && result.Items == c.elementASTNodes && result.Source == c.source
+
+//@ func (TypeConstraint).ASTNode()
+//@   props C16
+//@   requires len(c.value) <= 1000000000000
+//@   nopanic
+//@   ensures result.Source == c.source && spellsDecoded(result.Value, c.value)
+
+//@ func (AdditionalProperties).ASTNode()
+//@   props C16
+//@   nopanic
+//@   ensures result == c.astNode
